@@ -9,7 +9,7 @@
 ID=$1
 SRC=${2:-/tmp/seed-out/$ID}
 STORE=${3:-$ID}
-WT=/var/tmp/wt-me
+WT=${WT:-/var/tmp/wt-me}
 export GOFLAGS=-mod=mod GOPROXY=off GOSUMDB=off GOTOOLCHAIN=local
 set -u
 [ -f "$SRC/patch.diff" ] || { echo "no patch in $SRC"; exit 3; }
@@ -21,17 +21,17 @@ echo "== $ID: demo=$demo location=$loc run=$run"
 if ! git -C $WT apply --check "$SRC/patch.diff" 2>/dev/null; then echo "PATCH DOES NOT APPLY"; exit 4; fi
 # without the change
 if [ -n "$demo" ]; then cp "$demo" "$WT/$loc/zz_seed_demo_test.go"; fi
-( cd $WT/$loc && timeout 300 go test -vet=off -count=1 -run "$(grep -oE 'func (Test[A-Za-z0-9_]+)' $WT/$loc/zz_seed_demo_test.go | awk '{print $2}' | paste -sd'|')" . > /var/tmp/vw/seed-$ID-without.log 2>&1 ); rc_without=$?
+( cd $WT/$loc && timeout 300 go test -vet=off -count=1 -run "$(grep -oE 'func (Test[A-Za-z0-9_]+)' $WT/$loc/zz_seed_demo_test.go | awk '{print $2}' | paste -sd'|')" . > /var/tmp/vw/seed-$STORE-without.log 2>&1 ); rc_without=$?
 git -C $WT apply "$SRC/patch.diff"
 ( cd $WT && go build ./... ) || { echo "DOES NOT BUILD"; exit 5; }
-( cd $WT/$loc && timeout 300 go test -vet=off -count=1 -run "$(grep -oE 'func (Test[A-Za-z0-9_]+)' $WT/$loc/zz_seed_demo_test.go | awk '{print $2}' | paste -sd'|')" . > /var/tmp/vw/seed-$ID-with.log 2>&1 ); rc_with=$?
+( cd $WT/$loc && timeout 300 go test -vet=off -count=1 -run "$(grep -oE 'func (Test[A-Za-z0-9_]+)' $WT/$loc/zz_seed_demo_test.go | awk '{print $2}' | paste -sd'|')" . > /var/tmp/vw/seed-$STORE-with.log 2>&1 ); rc_with=$?
 rm -f "$WT/$loc/zz_seed_demo_test.go"
 echo "demo: without change rc=$rc_without, with change rc=$rc_with"
-( cd $WT && timeout 900 go test -vet=off -count=1 ./... > /var/tmp/vw/seed-$ID-suite.log 2>&1 ); rc_suite=$?
+( cd $WT && timeout 900 go test -vet=off -count=1 ./... > /var/tmp/vw/seed-$STORE-suite.log 2>&1 ); rc_suite=$?
 if [ $rc_suite -ne 0 ]; then
   # the one known flaky test: rerun the root package once
-  if grep -q "TestResponseToTimedOutIQ" /var/tmp/vw/seed-$ID-suite.log && [ "$(grep -c '^FAIL' /var/tmp/vw/seed-$ID-suite.log)" -le 2 ]; then
-    ( cd $WT && timeout 600 go test -vet=off -count=1 . > /var/tmp/vw/seed-$ID-suite2.log 2>&1 ) && rc_suite=0
+  if grep -q "TestResponseToTimedOutIQ" /var/tmp/vw/seed-$STORE-suite.log && [ "$(grep -c '^FAIL' /var/tmp/vw/seed-$STORE-suite.log)" -le 2 ]; then
+    ( cd $WT && timeout 600 go test -vet=off -count=1 . > /var/tmp/vw/seed-$STORE-suite2.log 2>&1 ) && rc_suite=0
   fi
 fi
 echo "suite with change rc=$rc_suite"
